@@ -176,6 +176,7 @@ func (a *Analysis) ruleP() {
 			counts[rule]++
 		}
 	}
+	gp := false
 	collect := func(e *Eval, ctxName string) {
 		for _, ev := range e.Events {
 			switch ev.Rule {
@@ -192,16 +193,25 @@ func (a *Analysis) ruleP() {
 					rule = "P1"
 				}
 				r.Add(rule, key, pos, ctxName, ev.Status, "%s", ev.Msg)
+				if gp && ev.Status != Discharged {
+					// a constructor that may panic does not "return the sentinel" / "succeed" for that size
+					r.Add("Gp", key, pos, ctxName, ev.Status, "%s", ev.Msg)
+				}
 			}
 		}
 	}
 	nctx := 0
 	for _, fn := range a.Exported {
+		gp = a.isAnchor(fn, a.NME) || a.isAnchor(fn, a.NM)
 		for _, ctx := range a.entryContexts(fn) {
 			e := a.eval(fn, ctx)
 			nctx++
 			collect(e, fnKey(fn)+"("+ctx.Name+")")
 		}
+		if gp {
+			r.OK("Gp", fnKey(fn)+"/returns", a.P.Pos(fn.Pos()), "", "no panic or unbounded operation found in any size or language context of %s (it returns for every argument)", fnKey(fn))
+		}
+		gp = false
 		r.OK("P1", fnKey(fn)+"/covered", a.P.Pos(fn.Pos()), "", "exported %s evaluated in %d contexts", fnKey(fn), len(a.entryContexts(fn)))
 	}
 	// the once-run builders are reachable too (through sync.Once.Do, which the evaluator does not enter)
